@@ -544,7 +544,7 @@ func main() {
 	runner.Main(&runner.Harness{
 		ID:    "C13",
 		Level: "model_checking",
-		Rule:  "mixes of 1-2 (3 thorough) connections of kinds {terminal-route match, fall-through, fall-through after a non-terminal route consumed 2 bytes, fall-through of the wrapped connection after the shipped proxy_protocol handler stripped a PROXY header, fall-through after TLS termination by the real l4tls handler with a crypto/tls client (plaintext and exposed TLS state), undecided until the matching timeout, matcher error} x consumer {Accept eagerly, only after all matching ended, never} x hand-off channel capacity {1,2} x listener Close before connection k / at the end x payload {3, 9 bytes}; every interleaving of the real listener loop, handle goroutines, Accept, Close and the consumer within the joint deviation budget (delay bounding; 3 quick / 4 thorough for the mixes around a falling-through connection with channel capacity 1, one less otherwise: preemptions, select alternatives, early timers, pool misses, short reads); the buffer pool is a deterministic LIFO so that reuse of a just-returned buffer is the default; kind R: TLS termination followed by a throttle handler (which replaces the transport) before the connection falls through",
+		Rule:  "mixes of 1-2 (3 thorough) connections of kinds {terminal-route match, fall-through, fall-through after a non-terminal route consumed 2 bytes, fall-through of the wrapped connection after the shipped proxy_protocol handler stripped a PROXY header, fall-through after TLS termination by the real l4tls handler with a crypto/tls client (plaintext and exposed TLS state), undecided until the matching timeout, matcher error} x consumer {Accept eagerly, only after all matching ended, never} x hand-off channel capacity {1,2} x listener Close before connection k / at the end x payload {3, 9 bytes}; every interleaving of the real listener loop, handle goroutines, Accept, Close and the consumer within the joint deviation budget (delay bounding; 3 quick / 4 thorough for the mixes around a falling-through connection with channel capacity 1, one less otherwise: preemptions, select alternatives, early timers, pool misses, short reads); the buffer pool is a deterministic LIFO so that reuse of a just-returned buffer is the default; kind R: TLS termination followed by a throttle handler (which replaces the transport) before the connection falls through; kinds L (consumed connection kept open across Close), H (consuming route, then a terminal route later in the list), B (9300-byte stream behind a matcher needing 8000 bytes, first write 1000 bytes)",
 		Assumptions: []string{
 			"the code under test is /repo's working tree mechanically redirected to the scheduler (tools/gomcrw); sync.Pool is replaced by a deterministic LIFO pool",
 			"TLS-terminated fall-through is covered by C01's TLS chains and the tlsConnection wrapper is not exercised here",
